@@ -231,13 +231,28 @@ def _mutate(rng, doc):
     if r < 0.36 and isinstance(d.get("env"), dict):
         env = d["env"]
         op = rng.choice(["dup-var-dep", "dup-dep-names", "empty-var-name", "dup-label-var", "spack", "git-item",
-                         "path-key", "odd-var-name"])
+                         "path-key", "odd-var-name", "dup-path-git", "dup-git-names", "dup-var-git"])
+        git_item = {"name": "LIB", "path": "/tmp", "url": "https://example.invalid/lib.git"}
         if op == "dup-var-dep":
             env.setdefault("variables", {})["DEP0"] = "v"
             env.setdefault("dependencies", {}).setdefault("paths", []).append({"name": "DEP0", "path": "/tmp"})
         elif op == "dup-dep-names":
             env.setdefault("dependencies", {}).setdefault("paths", []).extend(
                 [{"name": "D", "path": "/tmp"}, {"name": "D", "path": "/"}])
+        elif op == "dup-path-git":
+            # the same name once as a path and once as a repository (either block may come first)
+            deps = env.setdefault("dependencies", {})
+            if rng.random() < 0.5 and "paths" not in deps:
+                deps["git"] = deps.get("git", []) + [dict(git_item)]
+                deps["paths"] = [{"name": "LIB", "path": "/tmp"}]
+            else:
+                deps.setdefault("paths", []).append({"name": "LIB", "path": "/tmp"})
+                deps["git"] = (deps.get("git") or []) + [dict(git_item)]
+        elif op == "dup-git-names":
+            env.setdefault("dependencies", {})["git"] = [dict(git_item), dict(git_item, path="/")]
+        elif op == "dup-var-git":
+            env.setdefault("variables", {})["LIB"] = "v"
+            env.setdefault("dependencies", {})["git"] = [dict(git_item)]
         elif op == "odd-var-name":
             # names outside \w+ are names too; their values obey the same rules
             env.setdefault("variables", {})[rng.choice(["RUN-DIR", "run.dir", "RUN DIR", "N+1", "CODE/V"])] = \
